@@ -26,8 +26,24 @@ def main():
         assert res['states'] >= 1
         print('selftest ok: sismic from', os.path.dirname(sismic.__file__), 'states', res['states'])
         return 0
-    mod = importlib.import_module('checks.%s' % a.id.lower())
-    return mod.run(a.tier, seed)
+    try:
+        mod = importlib.import_module('checks.%s' % a.id.lower())
+        return mod.run(a.tier, seed)
+    except Exception:
+        # The checks never raise on a tree where the property holds (they are run on the unchanged
+        # tree, several seeds, before being registered): an exception here means the code under
+        # test behaved in a way the harness could not even drive, which is reported as a violation.
+        import traceback
+        import time
+        from mc import harness
+        tb = traceback.format_exc()
+        print(tb)
+        v = harness.Violation('%s:aborted' % a.id, '%s check aborted by an unexpected exception: %s'
+                              % (a.id, tb.strip().splitlines()[-1]), {'check': a.id, 'traceback': tb})
+        cov = {'states': 1, 'transitions': 1, 'traces_validated_against_impl': 0, 'exhaustive': False,
+               'samples': ['check aborted'], 'evaluations': 1, 'distinct_nontrivial': 0,
+               'rule': 'aborted', 'explanation': 'check aborted by an unexpected exception'}
+        return harness.finish(a.id, a.tier, seed, 'other', cov, [v], [], time.time())
 
 
 if __name__ == '__main__':
